@@ -65,29 +65,12 @@ theorem mustOccurIf_ne_panic {c : Bool} {r : Rules} {e : Ty} {vs : List Val}
       exact require_ne_panic _
   · simp
 
-/-- The object code lookup cannot hit a nil pointer/interface on a decoded element. -/
-theorem codeOf_dec_ne_panic {e : Ty} {b : Bytes} {o : Opts} {v : Val} {n : Nat} (h : dec e b o = .ok (v, n)) :
-    e.codeOf v ≠ .panic := by
-  cases e <;> (try (cases v <;> simp [Ty.codeOf] <;> (split <;> simp)))
-  · -- ptr
-    simp only [dec, Res.bind_eq_ok, Res.pure_eq] at h
-    obtain ⟨⟨v', n'⟩, _, hc⟩ := h
-    cases hc
-    simp only [Ty.codeOf]; split <;> simp
-  · -- iface
-    simp only [dec] at h
-    split at h
-    · contradiction
-    · obtain ⟨c, v', rfl⟩ := decAlts_shape _ _ _ _ _ _ h
-      simp only [Ty.codeOf]; split <;> simp
+/-- The object code lookup never panics (a nil element is an error since fix a0f81e4). -/
+theorem codeOf_ne_panic (e : Ty) (v : Val) : e.codeOf v ≠ .panic := by
+  cases e <;> cases v <;> simp [Ty.codeOf] <;> (split <;> simp)
 
-theorem items_codeOf_ne_panic {e : Ty} {o : Opts} {k : Nat} {b : Bytes} {items : List (Val × Bytes)} {m : Nat}
-    (h : decLoop (fun b => dec e b o) k b = .ok (items, m)) : ∀ v ∈ items.map (·.1), e.codeOf v ≠ .panic := by
-  obtain ⟨_, _, _, hit⟩ := decLoop_spec (fun b v n h => cl_ty e b o v n h) _ _ _ _ h
-  intro v hv
-  obtain ⟨p, hp, rfl⟩ := List.mem_map.1 hv
-  obtain ⟨b', hb', _⟩ := hit p hp
-  exact codeOf_dec_ne_panic hb'
+theorem mustOccurIf_ne_panic' (c : Bool) (r : Rules) (e : Ty) (vs : List Val) : mustOccurIf c r e vs ≠ .panic :=
+  mustOccurIf_ne_panic (fun v _ => codeOf_ne_panic e v)
 
 mutual
 theorem np_ty : ∀ (t : Ty) (b : Bytes) (o : Opts), dec t b o ≠ .panic
@@ -115,6 +98,7 @@ theorem np_ty : ∀ (t : Ty) (b : Bytes) (o : Opts), dec t b o ≠ .panic
     split <;> simp
   | .byteArr n code mn mx, b, o => by
     simp only [dec]
+    apply bind_ne_panic (require_ne_panic _); intro _ _
     apply bind_ne_panic (readCode_ne_panic _ _); intro _ _
     split <;> simp
   | .u256, b, o => by simp only [dec]; split <;> simp
@@ -126,8 +110,7 @@ theorem np_ty : ∀ (t : Ty) (b : Bytes) (o : Opts), dec t b o ≠ .panic
     simp only [dec]
     apply bind_ne_panic (readLen_ne_panic _ _); intro ⟨count, w⟩ _
     apply bind_ne_panic (decSeqBody_ne_panic (fun b => np_ty e b o) _ _ _ _ _); intro ⟨items, n⟩ hbody
-    obtain ⟨m, _, hloop, _⟩ := decSeqBody_ok hbody
-    apply bind_ne_panic (mustOccurIf_ne_panic (items_codeOf_ne_panic hloop)); intro _ _
+    apply bind_ne_panic (mustOccurIf_ne_panic' _ _ _ _); intro _ _
     simp
   | .array len lp r e, b, o => by
     simp only [dec]
@@ -136,8 +119,7 @@ theorem np_ty : ∀ (t : Ty) (b : Bytes) (o : Opts), dec t b o ≠ .panic
     split
     · simp
     · apply bind_ne_panic (decSeqBody_ne_panic (fun b => np_ty e b o) _ _ _ _ _); intro ⟨items, n⟩ hbody
-      obtain ⟨m, _, hloop, _⟩ := decSeqBody_ok hbody
-      apply bind_ne_panic (mustOccurIf_ne_panic (items_codeOf_ne_panic hloop)); intro _ _
+      apply bind_ne_panic (mustOccurIf_ne_panic' _ _ _ _); intro _ _
       simp
   | .map lp r k v, b, o => by
     simp only [dec]
@@ -196,6 +178,136 @@ theorem np_alts : ∀ (alts : Alts) (code : Nat) (b : Bytes) (o : Opts), decAlts
     · apply bind_ne_panic (np_ty t b o); intro _ _
       simp
     · exact np_alts rest code b o
+end
+
+
+/-! ## the encoder never panics either -/
+
+theorem writeLen_ne_panic (lp : LP) (l : Nat) : writeLen lp l ≠ .panic := by
+  unfold writeLen; split
+  · simp
+  · split <;> simp
+
+theorem encSeq_ne_panic (lp : LP) (r : Rules) (o : Opts) (data : List Bytes) : encSeq lp r o data ≠ .panic := by
+  unfold encSeq
+  split
+  · simp
+  · apply bind_ne_panic (require_ne_panic _); intro _ _
+    apply bind_ne_panic (writeLen_ne_panic _ _); intro _ _
+    apply bind_ne_panic (require_ne_panic _); intro _ _
+    simp
+
+theorem encKV_ne_panic {ek ev : Val → Res Bytes} (hk : ∀ a, ek a ≠ .panic) (hv : ∀ a, ev a ≠ .panic) (x : Val) :
+    encKV ek ev x ≠ .panic := by
+  cases x <;> simp only [encKV] <;> (try simp)
+  apply bind_ne_panic (hk _); intro _ _
+  apply bind_ne_panic (hv _); intro _ _
+  simp
+
+mutual
+theorem ep_ty : ∀ (t : Ty) (pre : Bool) (v : Val) (o : Opts), enc t pre v o ≠ .panic
+  | .bool, pre, v, o => by cases v <;> simp only [enc] <;> (try simp) <;> (split <;> simp)
+  | .uint w, pre, v, o => by cases v <;> simp only [enc] <;> (try simp) <;> (split <;> simp)
+  | .float w, pre, v, o => by cases v <;> simp only [enc] <;> (try simp) <;> (split <;> simp)
+  | .int w, pre, v, o => by cases v <;> simp only [enc] <;> (try simp) <;> (split <;> simp)
+  | .str lp mn mx, pre, v, o => by
+    cases v <;> simp only [enc] <;> (try simp)
+    split
+    · simp
+    · apply bind_ne_panic (require_ne_panic _); intro _ _
+      apply bind_ne_panic (writeLen_ne_panic _ _); intro _ _
+      simp
+  | .bytes lp mn mx, pre, v, o => by
+    cases v <;> simp only [enc] <;> (try simp)
+    split
+    · simp
+    · apply bind_ne_panic (require_ne_panic _); intro _ _
+      apply bind_ne_panic (writeLen_ne_panic _ _); intro _ _
+      simp
+  | .byteArr n code mn mx, pre, v, o => by
+    cases v <;> simp only [enc] <;> (try simp)
+    split <;> (try simp)
+    split <;> simp
+  | .u256, pre, v, o => by cases v <;> simp only [enc] <;> (try simp) <;> (split <;> simp)
+  | .time, pre, v, o => by cases v <;> simp only [enc] <;> simp
+  | .slice lp r e, pre, v, o => by
+    cases v <;> simp only [enc] <;> (try simp)
+    apply bind_ne_panic (require_ne_panic _); intro _ _
+    apply bind_ne_panic (mustOccurIf_ne_panic' _ _ _ _); intro _ _
+    apply bind_ne_panic (mapMRes_ne_panic (fun a _ => ep_ty e true a o)); intro _ _
+    exact encSeq_ne_panic _ _ _ _
+  | .array n lp r e, pre, v, o => by
+    cases v <;> simp only [enc] <;> (try simp)
+    split <;> (try simp)
+    apply bind_ne_panic (require_ne_panic _); intro _ _
+    apply bind_ne_panic (mustOccurIf_ne_panic' _ _ _ _); intro _ _
+    apply bind_ne_panic (mapMRes_ne_panic (fun a _ => ep_ty e true a o)); intro _ _
+    exact encSeq_ne_panic _ _ _ _
+  | .map lp r k v', pre, v, o => by
+    cases v <;> simp only [enc] <;> (try simp)
+    split
+    · simp
+    · apply bind_ne_panic (require_ne_panic _); intro _ _
+      apply bind_ne_panic (mapMRes_ne_panic (fun a _ =>
+        encKV_ne_panic (fun x => ep_ty k true x o) (fun x => ep_ty v' true x o) a)); intro _ _
+      exact encSeq_ne_panic _ _ _ _
+  | .struct code fs, pre, v, o => by
+    cases v <;> simp only [enc] <;> (try simp)
+    apply bind_ne_panic (ep_fields fs _ o); intro _ _
+    simp
+  | .ptr t, pre, v, o => by
+    cases v <;> simp only [enc] <;> (try simp)
+    split
+    · exact ep_ty t false _ o
+    · simp
+  | .iface den alts, pre, v, o => by
+    cases v <;> simp only [enc] <;> (try simp)
+    exact ep_alts alts _ _ o
+theorem ep_fields : ∀ (fs : Fields) (vs : List Val) (o : Opts), encFields fs vs o ≠ .panic
+  | .nil, vs, o => by cases vs <;> simp [encFields]
+  | .cons false t rest, vs, o => by
+    cases vs with
+    | nil => simp [encFields]
+    | cons v vs =>
+      simp only [encFields]
+      apply bind_ne_panic (ep_ty t true v o); intro _ _
+      apply bind_ne_panic (ep_fields rest vs o); intro _ _
+      simp
+  | .cons true t rest, vs, o => by
+    cases vs with
+    | nil => simp [encFields]
+    | cons v vs =>
+      simp only [encFields]
+      apply bind_ne_panic
+      · split
+        · simp
+        · apply bind_ne_panic (ep_ty t true v o); intro _ _
+          simp
+      · intro _ _
+        apply bind_ne_panic (ep_fields rest vs o); intro _ _
+        simp
+  | .emb false fs rest, vs, o => by
+    rcases vs with _ | ⟨v, vs⟩
+    · simp [encFields]
+    · cases v <;> simp only [encFields] <;> (try simp)
+      apply bind_ne_panic (ep_fields fs _ o); intro _ _
+      apply bind_ne_panic (ep_fields rest vs o); intro _ _
+      simp
+  | .emb true fs rest, vs, o => by
+    rcases vs with _ | ⟨v, vs⟩
+    · simp [encFields]
+    · rcases v with x | x | x | x | ⟨x, y⟩ | _ | x | ⟨x, y⟩ <;> (try simp only [encFields]) <;> (try simp)
+      cases x <;> simp only [encFields] <;> (try simp)
+      apply bind_ne_panic (ep_fields fs _ o); intro _ _
+      apply bind_ne_panic (ep_fields rest vs o); intro _ _
+      simp
+theorem ep_alts : ∀ (alts : Alts) (code : Nat) (v : Val) (o : Opts), encAlts alts code v o ≠ .panic
+  | .nil, _, _, _ => by simp [encAlts]
+  | .cons c t rest, code, v, o => by
+    simp only [encAlts]
+    split
+    · exact ep_ty t true v o
+    · exact ep_alts rest code v o
 end
 
 end Hive.Serix
